@@ -432,6 +432,19 @@ def t3(ck: Check) -> None:
                                 and all(fm.cfg.dominates(fm.cfg.nodes[next(iter(fm.cfg.g.predecessors(b_.id)))], cn) for _t, _p, b_ in fcs):
                             guards.append((r, pc))
             if not guards:
+                # the same contract written as a guard of the call: `if limit is None or limit > 0: <enumerate>`
+                tr_ = logic.Translator(lambda e: text(e), numeric={"solution_limit"})
+                fs_ = []
+                for test, pol, b in fm.facts(cn):
+                    ff = tr_.f(test)
+                    fs_.append(ff if pol else logic.Not(ff))
+                pcc = logic.And(*fs_)
+                try:
+                    if fs_ and logic.implies(pcc, logic.Or(logic.B("none:solution_limit"), logic.Lt("0", "solution_limit"))):
+                        guards.append((None, pcc))
+                except logic.TooBig:
+                    pass
+            if not guards:
                 probs.append("a solution limit <= 0 still runs the enumeration: the callback appends the first solution before "
                              "it looks at the limit, so limit 0 yields one result and `len(result) == limit` checks in the "
                              "callers never see a truncation")
